@@ -10,6 +10,7 @@ mod cli;
 mod clicase;
 mod dict;
 mod filt;
+mod examples;
 mod gen_bin;
 mod gen_pred;
 mod gen_sent;
@@ -44,6 +45,7 @@ fn main() {
                 "C20" => clicase::gen(&mut out, thorough, seed),
                 "TL" => traincli::gen(&mut out, thorough, seed),
                 "AC" => ac::gen(&mut out, thorough, seed),
+                "WA" | "EB" => examples::gen(&mut out, family, thorough, seed),
                 "C19" => dict::gen(&mut out, thorough, seed),
                 "C17" => kytea::gen(&mut out, thorough, seed),
                 "C18" => gen_pred::gen_c18(&mut out, thorough, seed),
@@ -148,6 +150,7 @@ fn run_case(line: &str, fails: &mut Vec<(String, String)>, effective: &mut Optio
         ["TR", ..] => train::run(&toks, fails, effective),
         ["TL", ..] => traincli::run(&toks, fails),
         ["AC", ..] => ac::run(&toks, fails),
+        ["WA", ..] | ["EB", ..] => examples::run(&toks, fails),
         [k, ..] if matches!(*k, "KY" | "KYE" | "KYX") => kytea::run(&toks, fails),
         [k, ..] if matches!(*k, "RD" | "WJ" | "WP" | "DF" | "LF") => dict::run(&toks, fails),
         [k, ..] if matches!(*k, "CP" | "CE" | "CPX") => clicase::run(&toks, fails),
